@@ -2,7 +2,8 @@
 (* Legal call histories of the public API (C04: parsing, rendering, formatting and walking are total).
 
    Operations: 1 Parse, 2 NewBlockParser, 3 NextBlock, 4 Extract, 5 Rewrite, 6 Render(cfg), 7 AppendBlock(cfg),
-               8 Format, 9 Walk.
+               8 Format, 9 Walk (the user's Post callback may stop it early: it still returns, and whatever it leaves behind
+               must not be seen by any later call).
    Every Call(op) is followed by exactly one Return(op, r).  Panic and Timeout are NOT actions of the
    specification, so a recorded history containing one is not a behaviour.  Results (reader and writer never
    fail): NextBlock returns a block (0) or end-of-input (1) and nothing else; after end-of-input every further
@@ -54,7 +55,7 @@ VARIABLES s, hist, tid, verdict
 vars == <<s, hist, tid, verdict>>
 GenInit == s = S0 /\ hist = <<>> /\ tid = 0 /\ verdict = "ok"
 GenNext == /\ Len(hist) < MaxEvents
-           /\ \E k \in {1, 2, 5}, op \in {1, 2, 3, 6, 8}, r \in {0, 1} :
+           /\ \E k \in {1, 2, 5}, op \in {1, 2, 3, 6, 7, 8, 9}, r \in {0, 1} :
                 LET t == Step(s, <<k, op, r>>) IN
                 /\ t.bad = ""
                 /\ s' = t /\ hist' = Append(hist, <<k, op, r>>)
